@@ -268,7 +268,11 @@ theorem captureScope_congr (E E' : List Frame) : ∀ (vars : List String) (sc : 
 
 theorem setNameIfLambda_addT (t : String) (w : Value) (k : Nat) (s : ES) (n : String) (v : Value) :
     setNameIfLambda (addT t w k s) n v = addT t w k (setNameIfLambda s n v) := by
-  cases v <;> rfl
+  cases v with
+  | lambda id a b sc =>
+    simp only [setNameIfLambda, addT]
+    cases nameOf s.names id <;> rfl
+  | _ => rfl
 
 theorem len_of_ext {E E' : List Frame} (h : SameBelow E E') {k : Nat} (hk : k < E.length) : k < E'.length := by
   have : E ≠ [] := by intro e; subst e; simp at hk
@@ -429,8 +433,10 @@ theorem weak_group (ht : t ≠ "inputs") : ∀ fuel : Nat,
         · rfl
         · rename_i val _
           rw [setNameIfLambda_addT]
-          have hk2 : k < (setNameIfLambda s1 n val).env.length := by rw [setNameIfLambda_env]; exact hk1
-          generalize setNameIfLambda s1 n val = s2 at hk2
+          simp only [show (addT t w k s).nextId = s.nextId from rfl]
+          generalize createdSince s.nextId val = cv
+          have hk2 : k < (setNameIfLambda s1 n cv).env.length := by rw [setNameIfLambda_env]; exact hk1
+          generalize setNameIfLambda s1 n cv = s2 at hk2
           simp only [addT, envInsert_addAt t w val hm.1 k s2.env hk2]
       | lambda args body =>
         simp only [mentions, Bool.or_eq_false_iff, callFree] at hm hc
@@ -557,8 +563,10 @@ theorem weak_group (ht : t ≠ "inputs") : ∀ fuel : Nat,
         dsimp only
         rename_i val
         rw [setNameIfLambda_addT]
-        have hk2 : k < (setNameIfLambda s1 n val).env.length := by rw [setNameIfLambda_env]; exact hk1
-        generalize setNameIfLambda s1 n val = s2 at hk2
+        simp only [show (addT t w k s).nextId = s.nextId from rfl]
+        generalize createdSince s.nextId val = cv
+        have hk2 : k < (setNameIfLambda s1 n cv).env.length := by rw [setNameIfLambda_env]; exact hk1
+        generalize setNameIfLambda s1 n cv = s2 at hk2
         simp only [addT, envInsert_addAt t w val hm.1 k s2.env hk2]
       | _ => exact ihE _ _ k s hm hc hk
     · -- evalDo
